@@ -256,6 +256,7 @@ func C02(ctx *core.Ctx) {
 	// ---- R3 runtime helper siblings --------------------------------------------------------
 	r := LoadRT(ctx, "", "")
 	if r.OK() {
+		c02HelperNames(ctx, cc, base, func(name string) bool { return r.Pkg.Func(name) != nil })
 		for _, fn := range r.Fns {
 			name := fn.Name()
 			if fn.Signature.Recv() != nil || !strings.HasPrefix(name, "Write") || !strings.HasSuffix(name, "WithContext") {
